@@ -5,12 +5,17 @@ OBLIGATIONS = (get_obls("a", 1, ((2, 0, 0, 1, 2, 1), (2, 0, 0, 1, 2, 2))) +
                get_obls("a", 1, ((3, 0, 0, 1, 2, 1),), tier="thorough") +
                get_obls("a", 2, ((2, 0, 0, 1, 2, 1),), known="F2-repair-level0-order", tag="-finding"))
 
+# b-d: the real repair.c units: descriptor written and installed only after the old MANIFESTs are archived,
+# counters above everything on disk, every scanned table added once; scan_table bounds/size; find_files; log conversion
+from obl.repair_common import repair_obls
+OBLIGATIONS += repair_obls("b")
+
 META = {
     "level": "model_checking",
     "level_text": "Bounded model checking (CBMC) of the real ldb_version_get (version_set.c with the real internal-key comparator) over tables placed the way repair.c places them (everything in level 0 under its old file number), against the reference 'newest entry <= snapshot over all surviving entries'. The strict obligation excludes exactly the listed finding F2; the finding itself is a separate obligation whose counterexample is replayed natively (and end-to-end by findings/F2/run.sh) and printed as KNOWN-FINDING.",
-    "level_note": "Trusted: CBMC semantics; the table layer is replaced by the contract of ldb_tables_get (first entry >= key); file numbers/sequences range over 1..15 (the code only compares them); repair.c's own scan/convert/descriptor code (C19.b-d) is not yet encoded: string- and directory-heavy, see DESIGN section 6 C19.",
-    "bounds": ["2-3 tables in level 0, 1-2 entries each, 1-byte user keys, sequences and file numbers 1..15, any snapshot"],
-    "outside": ["repair.c scan_table / convert_log_to_table / write_descriptor counters (C19.b-d)", "iterators after repair (merge by sequence: C07)", "archive/rename of damaged files"],
+    "level_note": "Trusted: CBMC semantics; the table layer is replaced by the contract of ldb_tables_get (first entry >= key); file numbers/sequences range over 1..15 (the code only compares them); repair.c's units (write_descriptor, scan_table, find_files, convert_log_to_table) run for real over an encoded path-name model with recorder stubs for env/table cache/log reader; repair_table (salvage) and the sequencing of the whole repair run are not encoded.",
+    "bounds": ["repair.c units: <=3 scanned tables, <=3 old MANIFESTs, <=6 directory entries, <=3 log records, 0-3 table entries; every env step may fail", "2-3 tables in level 0, 1-2 entries each, 1-byte user keys, sequences and file numbers 1..15, any snapshot"],
+    "outside": ["repair_table salvage path and whole repair_run sequencing", "iterators after repair (merge by sequence: C07)", "archive/rename of damaged files"],
     "models": ["ldb_tables_get contract model in harness/vset/get.c", "kit/vp_alloc.c incl. typed pointer arrays for ldb_vector_t"],
     "design_ref": "DESIGN.md section 6 C19.a, section 8 F2",
 }
